@@ -241,6 +241,22 @@ class Check:
         self.tier = a.tier
         self.replay = a.replay
         self.seed = a.seed if a.seed is not None else int(os.environ.get('VERIF_SEED', '1') or 1)
+        self.replay_key = None
+        if a.replay:
+            # a replay directory records the seed and tier of the run that found the violation: re-run exactly that
+            # exploration (all checks are deterministic functions of seed and tier, C07 up to thread scheduling) and
+            # report whether the same violation key comes back. Evidence files are not rewritten by replays.
+            rp = a.replay if os.path.isdir(a.replay) else os.path.dirname(a.replay)
+            try:
+                first = open(os.path.join(rp, 'README')).readline()
+                m = re.match(r'property=(\S+) key=(.*) seed=(\d+) tier=(\w+)', first)
+                if m and m.group(1) == prop:
+                    self.replay_key, self.seed, self.tier = m.group(2), int(m.group(3)), m.group(4)
+            except OSError:
+                pass
+            if self.replay_key is None:
+                print('INCONCLUSIVE: %s is not a replay directory of %s' % (a.replay, prop))
+                sys.exit(2)
         self.t0 = time.time()
         self.evaluations = 0
         self.distinct = set()
@@ -341,7 +357,7 @@ class Check:
             'inconclusive': self.inconclusive,
             'tree_hash': tree_hash()[:16],
         }
-        if not self.replay:
+        if not self.replay and not os.environ.get('VERIF_NO_EVIDENCE'):
             os.makedirs(os.path.join(VERIF, 'evidence'), exist_ok=True)
             tmp = os.path.join(VERIF, 'evidence', '.%s.%d.tmp' % (self.prop, os.getpid()))
             with open(tmp, 'w') as fh:
@@ -356,6 +372,9 @@ class Check:
             self.prop, self.tier, self.seed, self.evaluations, len(self.distinct) + getattr(self, '_distinct_extra', 0), len(self.violations),
             len(self.known_hits), time.time() - self.t0))
         print('  observed: ' + json.dumps(self.observed, sort_keys=True))
+        if self.replay_key is not None:
+            hit = any(v[0] == self.replay_key for v in self.violations)
+            print('REPLAY key=%s: %s' % (self.replay_key, 'reproduced' if hit else 'not reproduced on this tree'))
         if self.violations:
             sys.exit(1)
         if self.inconclusive:
